@@ -4,8 +4,9 @@ use super::*;
 use crate::verif_spec::fmt;
 use crate::verif_spec::src::Src;
 
-fn check_ext_chunk(data: &[u8]) {
+fn check_ext_chunk(data: &[u8]) -> bool {
     let got = ExternalFile::parse_chunk(data);
+    let decoded_ok = got.is_ok();
     let mut want: Option<usize> = None;
     let mut offs = [0usize; 3];
     if let Some(n) = fmt::external_files_count(data) {
@@ -47,22 +48,25 @@ fn check_ext_chunk(data: &[u8]) {
         (Ok(_), None) => assert!(false, "decoder accepted an external files chunk the format rejects"),
         (Err(_), Some(_)) => assert!(false, "decoder rejected a well-formed external files chunk"),
     }
+    decoded_ok
 }
 
 macro_rules! ext_shape {
-    ($hname:ident, $n:expr) => {
+    ($hname:ident, $n:expr, $u:expr, $can_ok:expr) => {
         crate::verif_harness! {
             /// ExternalFile::parse_chunk on every payload of exactly $n bytes (entry count symbolic: a
             /// declared count of up to u32::MAX must not cause a capacity-overflow panic / abort).
             #[kani::stub(std::fmt::format, crate::verif_spec::stubs::format_stub)]
-            #[kani::unwind(8)]
+            #[kani::unwind($u)]
             fn $hname(s) {
                 let d: [u8; $n] = s.bytes();
-                check_ext_chunk(&d);
+                let ok = check_ext_chunk(&d);
+                crate::vcover!(ok || !$can_ok, "a well-formed payload of this size decodes");
+                crate::vcover!(!ok, "a malformed payload of this size is rejected");
             }
         }
     };
 }
-ext_shape!(k_ext_files_12, 12);
-ext_shape!(k_ext_files_27, 27);
-ext_shape!(k_ext_files_41, 41);
+ext_shape!(k_ext_files_12, 12, 3, true);
+ext_shape!(k_ext_files_27, 27, 4, true);
+ext_shape!(k_ext_files_41, 41, 18, true);
